@@ -193,7 +193,8 @@ CLAIMED["C20"] = dict(
 )
 CLAIMED["C15"] = dict(
     level="other",
-    text="Deductive part (mode R, relative to library contracts): load_clip's offset/length arithmetic and call wiring into "
+    text="load_audio against the soundfile contract (seek to min(offset, frames), never past the end; read with zero fill; the file's sample rate). "
+         "Deductive part (mode R, relative to library contracts): load_clip's offset/length arithmetic and call wiring into "
          "load_audio, the exact number of time coordinates (`no CoordinateValidationError`), frame times (offset+i)/sr, the resample "
          "drift lemma, and compute_spectrogram's advertised step == realised step for time and frequency axes (real body). The clause "
          "that carries the property's weight -- the frames returned are the file's frames, zero-filled past EOF, for every channel "
